@@ -321,8 +321,12 @@ def _loop_guard_dominates(pf, guard_blocks, site):
     (the block calling Iterator::next that controls the guard) dominates the site, and the guard's failing edge leaves the function"""
     for g in guard_blocks:
         heads = [c.bb for c in pf.calls() if c.name.endswith("::next") and pf.dominates(c.bb, g) and pf.dominates(c.bb, site)]
-        if heads:
-            return True
+        for h in heads:
+            # the comparison has to run for every element: it dominates every back edge of the loop (an `exact && len != n` test
+            # whose first operand skips the comparison does not)
+            latches = [p_ for p_ in pf.pred[h] if pf.dominates(h, p_)]
+            if latches and all(pf.dominates(g, l) for l in latches):
+                return True
     return False
 
 
